@@ -107,6 +107,11 @@ type Engine struct {
 	watchHits    int
 	sleepBudget  int
 	declined     bool
+	sinkAll      bool
+	onChanEvent  FuncV
+	inChanEvent  bool
+	fairTicks    bool
+	lastTick     map[*ssa.Select]bool
 	replaced     map[string]FuncV
 	inReplaced   map[string]bool
 }
@@ -464,6 +469,11 @@ func (e *Engine) resetPathState() {
 	e.watched = nil
 	e.watchHits = 0
 	e.sleepBudget = -1
+	e.sinkAll = false
+	e.onChanEvent = FuncV{}
+	e.inChanEvent = false
+	e.fairTicks = false
+	e.lastTick = nil
 	e.replaced = map[string]FuncV{}
 	e.inReplaced = map[string]bool{}
 }
